@@ -26,10 +26,11 @@ const (
 	effWrite                    // ordered output (strings.Builder, fmt.Fprint*, io.Writer)
 	effExit                     // value-dependent early exit (first match wins)
 	effUnknown                  // call whose effects are unknown
+	effCallParam                // (summaries only) call of a function-valued parameter: resolved at each call site
 )
 
 func (k effKind) String() string {
-	return [...]string{"append", "overwrite", "ordered-write", "early-exit", "unknown-call"}[k]
+	return [...]string{"append", "overwrite", "ordered-write", "early-exit", "unknown-call", "call-of-parameter"}[k]
 }
 
 type mEffect struct {
@@ -43,6 +44,7 @@ type mEffect struct {
 	// TargetParam: in a function summary, the parameter through which the mutated location is
 	// reached (0 = receiver, i+1 = parameter i, -1 = none: package-level or unknown).
 	TargetParam int
+	CallParam   int // effCallParam: index of the function-valued parameter that is called
 }
 
 type mapOrder struct {
@@ -53,6 +55,7 @@ type mapOrder struct {
 	nLoops   int
 	nSyncMap int
 	nChan    int
+	summarising int
 }
 
 // total sorts that sanitise a slice collected from a map
@@ -794,6 +797,10 @@ func (m *mapOrder) callEffects(info *types.Info, fd *ast.FuncDecl, call *ast.Cal
 		sum := m.summary(fn, decl)
 		var out []mEffect
 		for _, e := range sum {
+			if e.Kind == effCallParam {
+				out = append(out, m.substituteFuncArg(info, fd, call, e, local, depth, shortQual(q))...)
+				continue
+			}
 			ne := e
 			ne.Pos = call.Pos()
 			if ne.Via == "" {
@@ -868,6 +875,13 @@ func (m *mapOrder) callEffects(info *types.Info, fd *ast.FuncDecl, call *ast.Cal
 			return effs
 		}
 		if _, ok := fn.Type().Underlying().(*types.Signature); ok {
+			// inside a summary the call of a function-valued parameter stays symbolic: each call site of the
+			// summarised function substitutes what it passes
+			if m.summarising > 0 {
+				if pi := declParamIndex(info, fd, fn); pi >= 0 {
+					return []mEffect{{Kind: effCallParam, CallParam: pi, Desc: "call of function parameter " + fn.Name(), Pos: call.Pos(), TargetParam: -1}}
+				}
+			}
 			// a function-valued parameter of the enclosing declaration: the union of what is passed at the call
 			// sites of that declaration
 			if effs, ok := m.paramFuncEffects(info, fd, fn, depth); ok {
@@ -1034,7 +1048,9 @@ func (m *mapOrder) summary(fn *types.Func, decl *ast.FuncDecl) []mEffect {
 	for i := 0; i < sig.Params().Len(); i++ {
 		addParam(sig.Params().At(i))
 	}
+	m.summarising++
 	all := m.effectsOfRegion(info, decl, decl.Body, decl.Body.Pos(), decl.Body.End(), 1)
+	m.summarising--
 	// effectsOfRegion treats parameters as non-local (declared before body.Pos()); drop effects whose
 	// root is a by-value parameter (local copy); rebinding a slice/map parameter itself (s = append(s,..)
 	// with no index/selector) is local too.
@@ -1258,4 +1274,95 @@ func innermostIdentOrAssert(info *types.Info, e ast.Expr) *ast.Ident {
 			return nil
 		}
 	}
+}
+
+func declParamIndex(info *types.Info, fd *ast.FuncDecl, v *types.Var) int {
+	if fd.Type.Params == nil {
+		return -1
+	}
+	i := 0
+	for _, fl := range fd.Type.Params.List {
+		for _, n := range fl.Names {
+			if info.Defs[n] == v {
+				return i
+			}
+			i++
+		}
+		if len(fl.Names) == 0 {
+			i++
+		}
+	}
+	return -1
+}
+
+// substituteFuncArg: the callee calls its function-valued parameter e.CallParam; the effects of that call are the
+// effects of what this call site passes, seen from the caller (variables captured by a literal that are local to
+// the caller's region do not escape it).
+func (m *mapOrder) substituteFuncArg(info *types.Info, fd *ast.FuncDecl, call *ast.CallExpr, e mEffect, local func(types.Object) bool, depth int, via string) []mEffect {
+	unknown := []mEffect{{Kind: effUnknown, Desc: "call of a function value passed to " + via, Pos: call.Pos(), TargetParam: -1}}
+	if e.CallParam >= len(call.Args) || depth > 6 {
+		return unknown
+	}
+	fromLit := func(fl *ast.FuncLit) []mEffect {
+		var effs []mEffect
+		for _, x := range m.effectsOfRegion(info, fd, fl.Body, fl.Pos(), fl.End(), depth+1) {
+			if x.Target != nil && local(x.Target) {
+				continue
+			}
+			if x.Indexed && x.IndexObj != nil && litParamIndex(info, fl, x.IndexObj) >= 0 {
+				x.IndexObj = nil // the literal's own parameter: no identity at this site
+			}
+			if x.Via == "" {
+				x.Via = via + " -> function literal"
+			}
+			x.Pos = call.Pos()
+			effs = append(effs, x)
+		}
+		return effs
+	}
+	switch a := ast.Unparen(call.Args[e.CallParam]).(type) {
+	case *ast.FuncLit:
+		return fromLit(a)
+	case *ast.Ident, *ast.SelectorExpr:
+		var o types.Object
+		if id, ok := a.(*ast.Ident); ok {
+			o = info.Uses[id]
+		} else {
+			o = info.Uses[a.(*ast.SelectorExpr).Sel]
+		}
+		switch f := o.(type) {
+		case *types.Func:
+			if f.Pkg() == nil || !strings.HasPrefix(f.Pkg().Path(), modPath) {
+				return nil
+			}
+			if d := m.p.declOf[f]; d != nil && d.Body != nil {
+				var effs []mEffect
+				for _, x := range m.summary(f, d) {
+					if x.Kind == effCallParam {
+						return unknown
+					}
+					x.Target, x.IndexObj, x.TargetParam = nil, nil, -1
+					if x.Via == "" {
+						x.Via = via + " -> " + shortQual(qualName(f))
+					}
+					x.Pos = call.Pos()
+					effs = append(effs, x)
+				}
+				return effs
+			}
+		case *types.Var:
+			if fl := findFuncLitFor(info, fd, f); fl != nil {
+				return fromLit(fl)
+			}
+			if pi := declParamIndex(info, fd, f); pi >= 0 {
+				if m.summarising > 0 {
+					return []mEffect{{Kind: effCallParam, CallParam: pi, Desc: e.Desc, Pos: call.Pos(), TargetParam: -1}}
+				}
+				if effs, ok := m.paramFuncEffects(info, fd, f, depth); ok {
+					return effs
+				}
+			}
+		}
+	}
+	return unknown
 }
